@@ -123,9 +123,9 @@ PROPS["C20"] = {
     "explanation": "barrier and release theorems over the store model's queue; released waiters per batch compared with the real Wait",
 }
 
-PROPS["C16"]["go_tests"] = ["TestVerifStore", "TestVerifCountersConcurrent"]
+PROPS["C16"]["go_tests"] = ["TestVerifStore", "TestVerifCountersConcurrent", "TestVerifCounter"]
 PROPS["C16"]["impl_only_traces"] = ["counters"]
-PROPS["C16"]["rule"] = STORE_RULE + "; plus a concurrent run: groups of 8 goroutines released together on the same absent key of a loading cache (leaders and joiners), mixed with plain Gets, then quiescent comparison of Stats/Len/EstimatedSize with the harness's own tally"
+PROPS["C16"]["rule"] = STORE_RULE + "; plus a concurrent run: groups of 8 goroutines released together on the same absent key of a loading cache (leaders and joiners), mixed with plain Gets, then quiescent comparison of Stats/Len/EstimatedSize with the harness's own tally; plus the real striped counter (1, 2 or 4 stripes) stepped one atomic operation at a time by 2..5 goroutines (hook H9) and compared with the model after every step"
 
 PROPS["C08"]["go_tests"] = ["TestVerifRing", "TestVerifRingStore"]
 PROPS["C08"]["rule"] += "; plus the same stepping through real Store.Get calls on one stripe, with schedules that park 12..17 readers between their tail CAS and the publication of their slot before another reader takes over the drain"
